@@ -524,6 +524,24 @@ impl DynamicBitfield {
     @*/
 }
 
+impl DynamicBitfield {
+    // ASSUMED (iterator adapters with closures are outside the Verus subset; checked natively, bounded): search for a held block
+    #[verifier::external_body]
+    pub fn index_of(&self, value: bool, position: u64) -> (r: Option<u64>)
+        requires self.wf(), value
+        ensures
+            r is Some ==> r->Some_0 >= position && self.bit(r->Some_0 as int) && forall|j: int| position <= j < r->Some_0 ==> !(#[trigger] self.bit(j)),
+            r is None ==> forall|j: int| position <= j ==> !(#[trigger] self.bit(j))
+    { unimplemented!() }
+    #[verifier::external_body]
+    pub fn last_index_of(&self, value: bool, position: u64) -> (r: Option<u64>)
+        requires self.wf(), value
+        ensures
+            r is Some ==> r->Some_0 <= position && self.bit(r->Some_0 as int) && forall|j: int| r->Some_0 < j <= position ==> !(#[trigger] self.bit(j)),
+            r is None ==> forall|j: int| 0 <= j <= position ==> !(#[trigger] self.bit(j))
+    { unimplemented!() }
+}
+
 pub proof fn lemma_push_contains<T>(s: Seq<T>, x: T)
     ensures forall|y: T| #[trigger] s.push(x).contains(y) <==> (s.contains(y) || y == x)
 {
